@@ -10,6 +10,7 @@ from inspect import getfullargspec
 
 from jaqalpaq.error import JaqalError
 from jaqalpaq.core.circuitbuilder import build
+from jaqalpaq._import import get_jaqal_gates
 from jaqalpaq.run import run_jaqal_circuit
 from jaqalpaq.generator import generate_jaqal_program
 
@@ -301,7 +302,9 @@ def circuit_from_stack(
     ):
         for module in imports:
             try:
-                importlib.import_module(module)
+                # The same loader the builder uses: it also understands
+                # relative (leading dot) module names.
+                get_jaqal_gates(module)
             except Exception:
                 if autoload_pulses != "ignore":
                     raise JaqalError(f"Could not load pulses from `{module}'")
